@@ -220,6 +220,21 @@ CLAIMED = {
         'deactivate, clock progress of the deadline loop (assumed). With C19 (miu + header <= LR) the call-site '
         'precondition gives "no frame exceeds the announced payload size".',
    technique='contract-based deductive verification: modular layering with call-site preconditions (pyvc)'),
+ 'C12': dict(
+   category='proof',
+   text='Type4Tag.send_apdu: the command APDU handed to the ISO-DEP layer equals the ISO/IEC 7816-4 short resp. '
+        'extended encoding for every header, data length and Le; the response minus 90 00 is returned or the status '
+        'is raised. IsoDepInitiator.exchange against a link whose every exchange answers arbitrarily or fails: every '
+        'I/R-block handed to the link has at most miu + 1 octets (interface precondition at each call site), the block '
+        'number stays in {0,1}, and only Type4TagCommandError escapes, for every command length, frame size and retry '
+        'budget (all loops under invariants). Type4ATag activation: for every standard-conformant ATS (any subset of '
+        'TA/TB/TC, historical bytes, TL only) miu + 3 equals min(FSC(FSCI), device limit), FWT follows FWI of TB(1) or '
+        'the default, nothing is raised.',
+   design_ref='DESIGN.md sections 5 (C12) and 6',
+   note='NOT decided: at-most-once execution and complete response under fault scripts (needs a card role model '
+        'over histories; the loops are verified only for safety), termination of the WTX / retransmit-after-ACK '
+        'loops against an adversarial card (no variant exists; reported as a note), retry counting, Type4BTag.',
+   technique='contract-based deductive verification: interface preconditions + raises-clauses (pyvc)'),
 }
 
 NOT_APPLICABLE = {}
